@@ -46,6 +46,9 @@ NewDecimalExact(i, e) ==
         ELSE LET x == Mul(i, Pow10(e + 4)) IN IF InI64(x) THEN Ok(VDec(x)) ELSE PFail)
   ELSE PFail        \* below the precision: no demand is made (see TextObs)
 
+\* Duration.Duration(): milliseconds as Go nanoseconds (time.Duration is a 64-bit count of nanoseconds), or failure
+DurationToNanos(ms) == LET x == Mul(ms, FromInt(1000000)) IN IF InI64(x) THEN Ok(VLong(x)) ELSE PFail
+
 \* a binary floating-point number m * 2^p (m: 64-bit integer) times 10^4, truncated toward zero
 RECURSIVE Pow2(_)
 Pow2(k) == IF k = 0 THEN 1 ELSE 2 * Pow2(k - 1)
